@@ -5,12 +5,12 @@ from .. import engine
 from .. import harness as H
 from ..ref import linefile
 
-RULE = ("every file of up to N lines over a 24-line alphabet (moves into/out of the region, printing and "
+RULE = ("every file of up to N lines over a 28-line alphabet (moves into/out of the region, printing and "
         "retracting moves, homing with comment, G92 E0 with comment, deferred codes, a numbered+checksummed line, "
         "leading blanks, blank / blank-only / comment-only lines, handled and unhandled @-commands, G10 tool form, "
         "firmware retract/recover, an arc, T0, an unknown code) x {LF, CRLF} x {last line terminated or not}, "
-        "filtered by a StreamProcessor created from each of four live states (homed; inside an episode with "
-        "deferred codes; exclusion disabled; recovery owed); oracle = a twin plugin (fresh objects restored from "
+        "filtered by a StreamProcessor created from each of five live states (homed; inside an episode with "
+        "deferred codes; exclusion disabled; recovery owed; retracted in inch mode); oracle = a twin plugin (fresh objects restored from "
         "the same live state) driven through the real queuing hooks with the command text extracted by an "
         "independent line splitter; non-trivial = files in which at least one line was rewritten or dropped")
 ASSUMPTIONS = ["process_line(str) is the observation point (StreamProcessor.read() hands bytes to process_line under "
@@ -22,12 +22,13 @@ ASSUMPTIONS = ["process_line(str) is the observation point (StreamProcessor.read
 LINES = ["G1 X50 Y40", "G1 X70 Y65 E1", "G0 X10 Y10", "G1 X55 Y35 E-1", "G1 E-1 F1800", "G1 E0 F1800",
          "G28 X Y ; home", "G92 E0 ; c", "M117 hi ; msg", "M204 S5", "N3 G1 X10 Y10*7 ; go", "  G1 X20 Y20", "", "   ",
          "; only comment", "@ExcludeRegion disable x", "@ExcludeRegion enable", "@foo", "G10 P1 ; tool", "G10", "G11",
-         "G2 X30 Y10 I10 J0 ; arc", "T0", "M999 ; unk"]
+         "G2 X30 Y10 I10 J0 ; arc", "T0", "M999 ; unk", "G91", "G90 ; abs", "G20", "G1 Z2 F600"]
 LIVE = {
     "homed": [],
     "in-episode": [("TRAVEL", "I1"), ("RAW", "M117 pending"), ("RAW", "M204 S9")],
     "disabled": [("AT", "ExcludeRegion", "disable")],
     "recovery-owed": [("TRAVEL", "I1"), ("RETRACT",), ("RECOVER",), ("TRAVEL", "O2")],
+    "retracted-inch": [("RETRACT",), ("INCH",)],
 }
 CFG = dict(prop="C20", monitors=(), regions=["R"], key_depth=False, exit="M400\n", enter="M117 in\n")
 _BASE = {}
@@ -136,7 +137,7 @@ def enumerate_inputs(ctx):
     N = 2 if ctx.quick else 3
     tasks = [(live, first, n) for live in LIVE for n in range(1, N + 1) for first in LINES]
     if ctx.quick:
-        tasks += [("in-episode", first, 3) for first in LINES[:8]]
+        tasks += [("in-episode", first, 3) for first in LINES[:6]]
     else:
         tasks += [("in-episode", first, 4) for first in LINES[:4]]
     tot = dict(files=0, lines=0, nt=0)
